@@ -293,6 +293,11 @@ func genWorkload(t *rapid.T, l string, ns string, cfg *GenCfg) Workload {
 		}
 		wl.Ports = append(wl.Ports, cp)
 	}
+	wl.SplitContainers = np >= 2 && rapid.IntRange(0, 3).Draw(t, l+"split") == 0
+	if rapid.IntRange(0, 3).Draw(t, l+"objlab") == 0 {
+		// decoy labels on the controller object itself (only the pod template's labels count)
+		wl.ObjLabels = genLabels(t, l+"objl", 2)
+	}
 	return wl
 }
 
@@ -346,7 +351,8 @@ func GenWorld(t *rapid.T, cfg GenCfg) *World {
 	for i := 0; i < nns; i++ {
 		n := nsNames[first+i]
 		names = append(names, n)
-		w.Namespaces = append(w.Namespaces, Ns{Name: n, HasObject: rapid.IntRange(0, 2).Draw(t, fmt.Sprintf("ns%dobj", i)) > 0, Labels: genLabels(t, fmt.Sprintf("ns%dl", i), 2)})
+		w.Namespaces = append(w.Namespaces, Ns{Name: n, HasObject: rapid.IntRange(0, 2).Draw(t, fmt.Sprintf("ns%dobj", i)) > 0, Labels: genLabels(t, fmt.Sprintf("ns%dl", i), 2),
+			ExplicitNameLabel: rapid.IntRange(0, 3).Draw(t, fmt.Sprintf("ns%dexpl", i)) == 0})
 	}
 	pickNs := func(l string) string { return names[rapid.IntRange(0, len(names)-1).Draw(t, l)] }
 	nwl := rapid.IntRange(1, cfg.MaxWl).Draw(t, "nwl")
@@ -437,7 +443,10 @@ func GenLayout(t *rapid.T, label string, n int) *Layout {
 		files[k].Docs = append(files[k].Docs, di)
 	}
 	for i := range files {
-		if len(files[i].Docs) == 1 && rapid.Bool().Draw(t, fmt.Sprintf("%sjson%d", label, i)) {
+		if len(files[i].Docs) >= 1 && rapid.IntRange(0, 4).Draw(t, fmt.Sprintf("%slist%d", label, i)) == 0 {
+			files[i].AsList = true
+		}
+		if (len(files[i].Docs) == 1 || files[i].AsList) && rapid.Bool().Draw(t, fmt.Sprintf("%sjson%d", label, i)) {
 			files[i].Path = strings.TrimSuffix(strings.TrimSuffix(files[i].Path, ".yaml"), ".yml") + ".json"
 		}
 	}
